@@ -7,6 +7,7 @@ from .. import comp, e1, e2, equiv, harness, ic10, probes, sym
 from . import base
 
 PROP = "C03"
+SOLVER = {'functions_encoded': ['utils.get_binop_instruction / get_unop_instruction fold lambdas', 'utils._e', 'types.compute_hash', 'utils.calc_hash', 'emitted IC10 of constant / stack-operand twins (Set B, C)'], 'bounds': 'Set A: every double / every signed 64-bit integer per operand (no enumeration); Set B / C: E1 bounds (steps, effects, paths per program) as in C01'}
 HDR = base.witness.HDR
 
 ASSUMPTIONS = [
